@@ -57,6 +57,8 @@ def ev_coq(e):
         return '(EExit %s %s)' % (cz(a[0]), cz(a[1]))
     if k == 'tick':
         return 'ETick'
+    if k == 'tick_close':
+        return '(ETickClose %d%%nat)' % a[0]
     if k == 'scan':
         return '(EScan %s)' % cbool(bool(a[0]) if a else False)
     if k == 'scan_begin':
@@ -296,9 +298,24 @@ def mon_C04(case, obs):
                     out.append(('C04:lost-without-marker', 'job %d' % k))
                 elif j['val'][1] != j['lost'][1]:
                     out.append(('C04:status-differs-from-marker', 'job %d reports %s, marker %s' % (k, j['val'][1], j['lost'])))
-                owners = j['wpids']
-                if not any(p in exits or True for p in owners):
-                    out.append(('C04:lost-but-owner-alive', 'job %d' % k))
+    # no job is marked lost unless the worker that acknowledged it is gone
+    gone = set()
+    for n, (e, o) in enumerate(zip(case['events'], obs)):
+        if e[0] == 'exit':
+            gone.add(e[1])
+        for p_, sg in o['sigs']:
+            if sg in (9, 15):
+                gone.add(p_)          # the harness lets a signalled fake process die
+        if n and e[0] == 'tick':
+            inpool = {w[0] for w in obs[n - 1]['workers']}
+            for k, j in _apply_jobs(o):
+                was = obs[n - 1]['jobs'][k]['lost'] if k < len(obs[n - 1]['jobs']) else None
+                if j['lost'] and not was and j['wpids']:
+                    own = j['wpids'][0]
+                    if own in inpool and own not in gone:
+                        out.append(('C04:live-workers-job-marked-lost',
+                                    'job %d was marked lost (%s) by the pass at event %d although its worker %d has not exited'
+                                    % (k, j['lost'], n, own)))
     return out
 
 
@@ -317,6 +334,30 @@ def mon_C05(case, obs):
                 lim = j['val'][1]
                 if t is None or lim is None or lim == 0:
                     out.append(('C05:timelimit-without-limit', 'job %d: %s accepted %s' % (k, j['val'], t)))
+    return out
+
+
+def mon_C05_stopped(case, obs):
+    """the process that was running a job failed by the hard limit is sent the termination signal"""
+    out = []
+    gone = set()
+    for n, (e, o) in enumerate(zip(case['events'], obs)):
+        if e[0] == 'exit':
+            gone.add(e[1])
+        if n and e[0] in ('scan', 'scan_step') and not o['exc']:
+            prev = obs[n - 1]
+            inpool = {w[0] for w in prev['workers']}
+            for k, j in _apply_jobs(o):
+                if k < len(prev['jobs']) and not prev['jobs'][k]['ready'] and j['ready'] and j['val'] and j['val'][0] == 'timelimit' \
+                        and j['wpids']:
+                    own = j['wpids'][0]
+                    if own in inpool and own not in gone and not any(p_ == own and sg in (15, 9) for p_, sg in o['sigs']):
+                        out.append(('C05:timed-out-worker-not-stopped',
+                                    'job %d failed with TimeLimitExceeded at event %d %s but its worker %d (in the pool, not exited) was sent no signal: %s'
+                                    % (k, n, e, own, o['sigs'])))
+        for p_, sg in o['sigs']:
+            if sg in (9, 15):
+                gone.add(p_)
     return out
 
 
@@ -461,12 +502,17 @@ def mon_C09(case, obs):
                 out.append(('C09:pool-below-size-after-pass', '%d workers, size %d at event %d' % (len(o['workers']), o['nprocs'], n)))
             if prev is not None and len(o['workers']) > max(o['nprocs'], len(prev['workers'])):
                 out.append(('C09:pool-above-size-after-pass', '%d workers, size %d' % (len(o['workers']), o['nprocs'])))
+            exited = {ev[1]: ev[2] for ev in case['events'][:n] if ev[0] == 'exit'}
+            dead = [w[0] for w in o['workers'] if w[0] in exited]
+            if dead:
+                out.append(('C09:dead-worker-left-in-pool', 'worker(s) %s have exited (status %s) and are still in the pool after the pass at event %d'
+                            % (dead, [exited[d] for d in dead], n)))
             free = [w for w in o['workers'] if not w[2]]
             if len(free) > o['nprocs']:
                 out.append(('C09:more-workers-than-size',
                             '%d workers not being stopped for a configured size of %d after the pass at event %d'
                             % (len(free), o['nprocs'], n)))
-        if e[0] != 'tick' and n and len(o['workers']) > len(obs[n - 1]['workers']):
+        if e[0] not in ('tick', 'tick_close') and n and len(o['workers']) > len(obs[n - 1]['workers']):
             out.append(('C09:worker-started-outside-supervision', 'event %s' % e))
     return out
 
@@ -505,6 +551,10 @@ def mon_C11(case, obs):
             signalled.add(p)
         if e[0] == 'exit' and e[1] not in signalled:
             clean_exit.setdefault(e[1], e[2] in (0, 155))
+        if e[0] in ('ack', 'stale_ack') and o['R'] != 0 and o['exc'] != 'Hang':
+            # "the count starts afresh when ... a job has been accepted": every acknowledgement a
+            # worker sends, whatever has become of the handle in the parent
+            out.append(('C11:acceptance-did-not-restore-budget', 'R=%d after the acknowledgement at event %d %s' % (o['R'], n, e)))
         if e[0] == 'tick' and n and not o['exc']:
             before = {w[0] for w in obs[n - 1]['workers']}
             after = {w[0] for w in o['workers']}
@@ -608,7 +658,7 @@ def mon_known_C09(case, obs):
     return out
 
 
-MONITORS = dict(C01=[mon_C01], C04=[mon_C04, mon_known_C04], C05=[mon_C05, mon_C05_jobs, mon_C05_after_result, mon_known_C05], C06=[mon_C06, mon_C06_timing],
+MONITORS = dict(C01=[mon_C01], C04=[mon_C04, mon_known_C04], C05=[mon_C05, mon_C05_jobs, mon_C05_after_result, mon_C05_stopped, mon_known_C05], C06=[mon_C06, mon_C06_timing],
                 C09=[mon_C09, mon_known_C09], C10=[mon_C10, mon_known_C10], C11=[mon_C11])
 
 
@@ -689,6 +739,52 @@ def sweep_resize():
     return out[::3]
 
 
+def sweep_terminate_job():
+    """three jobs on three workers; terminate_job() on one of them (each signal), a second worker
+    crashes; the two exits are reaped by the same pass or by different passes, in both orders;
+    late results for the third job"""
+    out = []
+    for sig in (None, 9, 10, 15):
+        for same_pass in (True, False):
+            for order in (0, 1):
+                for lost in (None, 2):
+                    ev = [['apply', None, None, lost, None], ['apply', None, None, lost, None], ['apply', None, None, lost, None],
+                          ['ack', 0, None, 0], ['ack', 1, None, 1], ['ack', 2, None, 2],
+                          ['terminate_job', 0, sig]]
+                    exits = [['exit', 0, -(sig or 15)], ['exit', 1, -11]]
+                    if order:
+                        exits.reverse()
+                    if same_pass:
+                        ev += exits + [['tick']]
+                    else:
+                        ev += [exits[0], ['tick'], exits[1], ['tick']]
+                    ev += [['ready', 2, None, True, 9]]
+                    for _ in range(4):
+                        ev += [['advance', 4], ['tick']]
+                    ev += [['ready', 1, None, True, 8]]
+                    out.append(dict(cfg=dict(n=3, max_restarts=100), events=ev))
+    return out
+
+
+def sweep_close_in_pass():
+    """some workers have exited; the pass that replaces them is interrupted by close() after the
+    first, second or third replacement; more passes follow"""
+    out = []
+    for n in (2, 3, 4):
+        for dead in range(1, n + 1):
+            for k in range(0, dead + 1):
+                for busy in (False, True):
+                    ev = []
+                    if busy:
+                        ev += [['apply', None, None, None, None], ['ack', 0, None, n - 1]]
+                    ev += [['exit', i, [155, -9, 1, 0][i % 4]] for i in range(dead)]
+                    ev += [['tick_close', k], ['tick'], ['apply', None, None, None, None], ['tick']]
+                    if busy:
+                        ev += [['ready', 0, None, True, 5]]
+                    out.append(dict(cfg=dict(n=n, max_restarts=100), events=ev))
+    return out
+
+
 def mon_C01_feed(case, obs):
     """every task of every queued sequence is sent by the task handler, except the one that
     could not be sent (and everything after an IOError, which stops the handler)"""
@@ -732,8 +828,9 @@ def mon_C01_unresolved(case, obs):
     return [('C01:job-unresolved-past-hard-limit', w) for s_, w in mon_C05_jobs(case, obs) if s_ == 'C05:not-timed-out-by-scan']
 
 
-SWEEPS = dict(C01=lambda: sweep_loss()[::3] + sweep_limits()[::3], C04=sweep_loss, C05=sweep_limits, C06=sweep_limits,
-              C08=lambda: sweep_loss()[::6], C09=lambda: sweep_loss()[::6] + sweep_resize(),
+SWEEPS = dict(C01=lambda: sweep_loss()[::3] + sweep_limits()[::3] + sweep_terminate_job(), C04=lambda: sweep_loss() + sweep_terminate_job(), C05=sweep_limits, C06=sweep_limits,
+              C07=sweep_close_in_pass,
+              C08=lambda: sweep_loss()[::6] + sweep_terminate_job()[::2], C09=lambda: sweep_loss()[::6] + sweep_resize() + sweep_close_in_pass()[::2],
               C10=sweep_resize)
 
 
@@ -991,10 +1088,61 @@ def mon_C07_closed(case, obs):
     return out
 
 
+def mon_C07_started_after_close(case, obs):
+    """once close() has been called the pool starts no worker: it would never be sent a sentinel"""
+    out = []
+    seen = set()
+    for n, (e, o) in enumerate(zip(case['events'], obs)):
+        refs = {w[0] for w in o['workers']}
+        new = refs - seen
+        if n:
+            if obs[n - 1]['state'] != 0 and new:
+                out.append(('C07:worker-started-after-close', 'event %d %s started worker(s) %s in a pool in state %d'
+                            % (n, e, sorted(new), obs[n - 1]['state'])))
+            elif e[0] == 'tick_close' and o['state'] != 0 and len(new) > e[1] + 1:
+                out.append(('C07:worker-started-after-close',
+                            'event %d %s: close() came from the start-up hook of worker number %d of the pass, yet %d workers were started'
+                            % (n, e, e[1] + 1, len(new))))
+        seen |= refs
+    return out
+
+
+def mon_C01_terminated(case, obs):
+    """a job carries Terminated only if terminate_job() was called on the worker running IT: the
+    failure of one job is never attached to another"""
+    return [('C01:failure-attached-to-other-job', w) for s_, w in mon_C04(case, obs) if s_ == 'C04:terminated-without-terminate-job']
+
+
+MONITORS['C01'].append(mon_C01_terminated)
 MONITORS['C01'].append(mon_C01_unresolved)
 MONITORS['C01'].append(mon_C01_feed)
-MONITORS['C07'] = [mon_known_C07, mon_C01, mon_C07_closed, mon_C07_credit]
+MONITORS['C07'] = [mon_known_C07, mon_C01, mon_C07_closed, mon_C07_credit, mon_C07_started_after_close]
+MONITORS['C09'].append(mon_C07_started_after_close)
 MONITORS['C08'] = [mon_C01]
+
+
+def mon_C02_length(case, obs):
+    """an imap / imap_unordered handle over k inputs is told length k (and nothing else), so that
+    iteration ends after exactly k items, whatever was submitted before it"""
+    out = []
+    want = {}
+    njobs = 0
+    for n, (e, o) in enumerate(zip(case['events'], obs)):
+        if len(o['jobs']) > njobs:
+            if e[0] in ('imap', 'imapu'):
+                want[njobs] = e[1]
+            njobs = len(o['jobs'])
+        for k, j in enumerate(o['jobs']):
+            if k in want and j['kind'] in ('imap', 'imapu') and j['extra'][1] is not None and j['extra'][1] != want[k]:
+                out.append(('C02:imap-told-wrong-length', 'handle %d over %d inputs was told length %s at event %d %s'
+                            % (k, want[k], j['extra'][1], n, e)))
+                del want[k]
+        if o['exc'] == 'Hang':
+            break
+    return out
+
+
+MONITORS['C02'] = [mon_C02_length, mon_C01_feed]
 
 
 # ------------------------------------------------------------------ real-pool scenarios
